@@ -225,7 +225,7 @@ func printFileAnnotationAsGithubActions(buffer *bytes.Buffer, f FileAnnotation) 
 		path = f.FileInfo().ExternalPath()
 	}
 	_, _ = buffer.WriteString("file=")
-	_, _ = buffer.WriteString(path)
+	_, _ = buffer.WriteString(githubActionsPropertyReplacer.Replace(path))
 
 	// Everything else is optional.
 	if startLine := f.StartLine(); startLine > 0 {
@@ -250,14 +250,22 @@ func printFileAnnotationAsGithubActions(buffer *bytes.Buffer, f FileAnnotation) 
 	}
 
 	_, _ = buffer.WriteString("::")
-	_, _ = buffer.WriteString(f.Message())
+	_, _ = buffer.WriteString(githubActionsDataReplacer.Replace(f.Message()))
 	if pluginName := f.PluginName(); pluginName != "" {
 		_, _ = buffer.WriteString(" (")
-		_, _ = buffer.WriteString(pluginName)
+		_, _ = buffer.WriteString(githubActionsDataReplacer.Replace(pluginName))
 		_, _ = buffer.WriteRune(')')
 	}
 	return nil
 }
+
+// Workflow commands are line-oriented: data and property values must be escaped.
+//
+// https://github.com/actions/toolkit/blob/main/packages/core/src/command.ts
+var (
+	githubActionsDataReplacer     = strings.NewReplacer("%", "%25", "\r", "%0D", "\n", "%0A")
+	githubActionsPropertyReplacer = strings.NewReplacer("%", "%25", "\r", "%0D", "\n", "%0A", ":", "%3A", ",", "%2C")
+)
 
 type externalFileAnnotation struct {
 	Path        string `json:"path,omitempty" yaml:"path,omitempty"`
